@@ -235,6 +235,26 @@ def unit_neighbours(ctx):
                info={"buffers": str(bufs), "collide": collide, "structural": True})
 
 
+def unit_header_determinism(ctx):
+    """the header a constructor computes is a function of the configuration alone: it must not pass through an unordered collection of
+    strings (set / frozenset iteration order changes with the per-process hash seed, so a restarted session would refuse its own file)"""
+    use_variant("tsv")
+    eng = ctx.engine()
+    for lt in (False, True):
+        def mk(e, lt=lt):
+            e.ghost_fs.dirs.add("/data/run")
+            e.ghost_fs.files[OUT] = None
+            return [mk_evaluator(e), ARG], {"log_times": lt}
+        paths = eng.run(PA + "Panoptica_Aggregator", mk)
+        nm = f"panoptica_aggregator.Panoptica_Aggregator.__init__[header, log_times={lt}]"
+        ctx.expect(f"{nm}: constructor returns", any(p.kind == "return" for p in paths))
+        ctx.side_obligations(paths, nm, func=PA + "Panoptica_Aggregator.__init__", replay="c17.hashseed", skip=lambda s_: not s_.startswith("order-independence"))
+        for pi, p in enumerate(paths):
+            if p.kind == "return":
+                ctx.oblige(f"{nm}/post(header written once, subject column first)#p{pi}", [], z3.BoolVal(bool(eng.ghost_fs.files.get(OUT)) and eng.ghost_fs.files[OUT][0][0] == "subject_name"),
+                           func=PA + "Panoptica_Aggregator.__init__", replay="c17.hashseed")
+
+
 def build(ctx):
     ctx.trust("ghost file system: atomic create, atomic single-row append, os.remove, Path.exists (the scheduler/OS abstraction)",
               "csv round trip; evaluator.evaluate summarised (C15: pure)")
@@ -247,8 +267,14 @@ def build(ctx):
         ctx.unit(f"crash[{st},noext]", lambda st=st: unit_crash_points(ctx, st, "noext"))
     ctx.unit("wrong_header", lambda: unit_wrong_header(ctx))
     ctx.unit("neighbours", lambda: unit_neighbours(ctx))
+    ctx.unit("header_determinism", lambda: unit_header_determinism(ctx))
+    include_stage(ctx, "C16", only=lambda mod, sub: [sub.unit("lifetime", lambda: mod.unit_lifetime(sub))])
     ctx.add_bounded("c17-crash-restart", "c17.bounded")
 
 
 def concretise(ctx, o, r):
+    if (o.info or {}).get("stage"):
+        return stage_concretise(ctx, o, r)
+    if o.replay == "c17.hashseed":
+        return {}
     return {"obligation": o.name, "state": o.info.get("state"), "collide": o.info.get("collide")}
